@@ -738,7 +738,10 @@ func (p *ProjectRunner) getCurrentReplicaCount(name string) int {
 func (p *ProjectRunner) scaleUpProcess(proc types.ProcessConfig, toAdd, scale, origScale int) {
 	for i := 0; i < toAdd; i++ {
 		var procFromConf types.ProcessConfig
-		err := json.Unmarshal([]byte(proc.OriginalConfig), &procFromConf)
+		// keep numeric variables as written (a float64 would render 1048576 as 1.048576e+06)
+		decoder := json.NewDecoder(strings.NewReader(proc.OriginalConfig))
+		decoder.UseNumber()
+		err := decoder.Decode(&procFromConf)
 		if err != nil {
 			log.Err(err).Msgf("failed to unmarshal config for %s", proc.Name)
 			return
